@@ -79,7 +79,8 @@ const (
 	fZeroTan   = 64
 	fOnZeroTan = 128
 	fOnCubEnd  = 256
-	fOnOther   = 512 // Filling: the start point lies on another contour
+	fOnQuad    = 512
+	fOnOther   = 512 // Filling (sf only): the start point lies on another contour
 )
 
 // embeddings. exact: lattice coincidences (and points on the boundary) stay exact in float64 and the ray keeps its
@@ -157,6 +158,8 @@ func (s *Scenario) tag(q *QExp, ei embInfo) string {
 		on := "on-boundary"
 		if q.F&(fOnZeroTan|fOnCubEnd) != 0 {
 			on = "on-cubic"
+		} else if q.F&fOnQuad != 0 {
+			on = "on-quad"
 		}
 		if t != "general" {
 			t = "degenerate-ray"
@@ -170,6 +173,14 @@ func (s *Scenario) tag(q *QExp, ei embInfo) string {
 // Epsilon is applied to products of squared radii there; every deviation of such a scenario gets one signature.
 func (s *Scenario) smallEllipse(ei embInfo) bool {
 	return ei.e.Name == latgeo.Tiny.Name && strings.Contains(s.Path.Kinds(), "E")
+}
+
+// rightmostBit selects the cf bit "start is the bottom-right-most vertex" in the embedded orientation.
+func (s *Scenario) rightmostBit() int {
+	if s.Emb.D < 0 {
+		return 4
+	}
+	return 2
 }
 
 func panicDev(p any) string {
@@ -226,9 +237,13 @@ func exec(s *Scenario) (ms []core.Mismatch, red []*Scenario, skipped bool) {
 	}
 	seen := map[string]int{}
 	small := s.smallEllipse(ei)
+	smallArc := ei.e.Name == latgeo.Tiny.Name && strings.ContainsAny(s.Path.Kinds(), "AE")
 	add := func(sig, detail string, r *Scenario) {
-		if small {
-			sig = sig[:strings.Index(sig, ":")] + ":unreliable+small-ellipse"
+		api := sig[:strings.Index(sig, ":")]
+		if small && (api == "windings" || api == "crossings" || api == "contains") {
+			sig = api + ":unreliable+small-ellipse"
+		} else if smallArc && (api == "ccw" || api == "filling") {
+			sig = api + ":unreliable+small-arc" // CCW (and Filling through it) compares angles/curvatures of arcs of 1-2 micrometres with the absolute Epsilon
 		}
 		if _, dup := seen[sig]; dup {
 			return
@@ -313,7 +328,7 @@ func exec(s *Scenario) (ms []core.Mismatch, red []*Scenario, skipped bool) {
 		okc, pm := latgeo.Try(func() { got = p.CCW() })
 		r := &Scenario{SC: s.SC, Path: s.Path, Emb: s.Emb, Ccw: s.Ccw, Open: s.Open, Cf: s.Cf}
 		ctag := ptag
-		if len(s.Cf) > 0 && s.Cf[0] == 3 {
+		if len(s.Cf) > 0 && s.Cf[0]&1 != 0 && s.Cf[0]&s.rightmostBit() != 0 {
 			ctag = "+open-start-rightmost" + ptag
 		}
 		if !okc {
@@ -338,7 +353,7 @@ func exec(s *Scenario) (ms []core.Mismatch, red []*Scenario, skipped bool) {
 		}
 		wtag := ftag
 		for _, f := range s.Cf {
-			if f == 3 {
+			if f&1 != 0 && f&s.rightmostBit() != 0 {
 				wtag = "+open-start-rightmost" // Filling takes the orientation of each sub-path from CCW
 			}
 		}
@@ -528,8 +543,8 @@ func (d Driver) Run(c *core.Ctx) error {
 	// 1. model level: two independent exact winding computations agree, parity of crossings, far field, simple
 	// contours (run concurrently with the generation jobs below)
 	var jobs []tlc.Opts
-	mc1 := tlc.Opts{Module: "Query", Config: cfg(3, 4, 1, "polyrand", `{"L"}`, c.Pick(60, 400), true), Seed: c.Seed, Coverage: c.Thorough(), Workers: 4, HeapGB: 3}
-	mc2 := tlc.Opts{Module: "Query", Config: cfg(c.Pick(4, 10), 3, 1, "curves", `{"L","A","Q"}`, c.Pick(30, 120), true), Seed: c.Seed, Timeout: 20 * time.Minute, Workers: 4, HeapGB: 3}
+	mc1 := tlc.Opts{Module: "Query", Config: cfg(3, 4, 1, "polyrand", `{"L"}`, c.Pick(60, 200), true), Seed: c.Seed, Coverage: c.Thorough(), Workers: 4, HeapGB: 3, Timeout: 30 * time.Minute}
+	mc2 := tlc.Opts{Module: "Query", Config: cfg(c.Pick(4, 10), 3, 1, "curves", `{"L","A","Q"}`, c.Pick(30, 40), true), Seed: c.Seed, Timeout: 30 * time.Minute, Workers: 4, HeapGB: 3}
 
 	// 2. spec -> code (the generation runs are independent: three TLC processes at a time)
 	all := `{"L","A","Q","C"}`
@@ -538,14 +553,14 @@ func (d Driver) Run(c *core.Ctx) error {
 	}
 	if c.Thorough() {
 		gen(2, 4, 1, "polyall", `{"L"}`, 0, 0) // all 6561 contours of <=4 points on 3x3
-		gen(4, 5, 1, "polyrand", `{"L"}`, 2500, 0)
-		gen(3, 4, 2, "polyrand", `{"L"}`, 800, 1)
-		gen(6, 6, 2, "polyrand", `{"L"}`, 400, 2)
-		gen(10, 3, 1, "curves", `{"L","A"}`, 1500, 3)
-		gen(6, 3, 1, "curves", `{"L","Q"}`, 1500, 4)
-		gen(6, 3, 1, "curves", `{"L","C"}`, 800, 5)
-		gen(10, 3, 2, "curves", all, 700, 6)
-		gen(20, 3, 1, "curves", `{"L","A"}`, 150, 7)
+		gen(4, 5, 1, "polyrand", `{"L"}`, 1200, 0)
+		gen(3, 4, 2, "polyrand", `{"L"}`, 400, 1)
+		gen(6, 6, 2, "polyrand", `{"L"}`, 150, 2)
+		gen(10, 3, 1, "curves", `{"L","A"}`, 600, 3)
+		gen(6, 3, 1, "curves", `{"L","Q"}`, 700, 4)
+		gen(6, 3, 1, "curves", `{"L","C"}`, 400, 5)
+		gen(10, 3, 2, "curves", all, 250, 6)
+		gen(20, 3, 1, "curves", `{"L","A"}`, 40, 7)
 	} else {
 		gen(2, 3, 1, "polyall", `{"L"}`, 0, 0) // all 729 triangles (incl. degenerate) on 3x3
 		gen(2, 4, 1, "polyrand", `{"L"}`, 400, 0)
